@@ -13,7 +13,7 @@ import common
 NOGEN = dict(GenNames=set(), GenAttrIdx=set(), GenEnds=set(), GenBodyIdx=set(), GenOpaqueIdx=set(), GenOBodyIdx=set())
 
 QUICK = [False]
-ALLSEG = set(range(1, 29)) - {20, 21, 22}
+ALLSEG = (set(range(1, 29)) - {20, 21, 22}) | {33, 34}
 
 
 def SKIP(doc, pos):
@@ -110,7 +110,7 @@ def run(out):
                                                simulate=3 if quick else 40, depth=19 if quick else 27, seed=out.seed + 1)))
     # generated segment families: tag = name x attribute part x end, script / style with bodies, opaque sections with bodies
     allgen = dict(GenNames={"a", "br", "img", "script", "style", "p", "my-el", "h1", "svg:g"}, GenAttrIdx=set(range(1, 11)), GenEnds={">", "/>", " />", " >"},
-                  GenBodyIdx=set(range(1, 8)), GenOpaqueIdx={1, 2, 3, 4}, GenOBodyIdx=set(range(1, 11)))
+                  GenBodyIdx=set(range(1, 10)), GenOpaqueIdx={1, 2, 3, 4}, GenOBodyIdx=set(range(1, 11)))
     insts.append(('generated-families-small', dict(constants=dict(MaxSeg=3 if quick else 4, MaxDepth=2, SegIdx={18}, XmlModes={True, False},
                                                                   GenNames={"a", "script"}, GenAttrIdx={1, 4}, GenEnds={">", "/>"}, GenBodyIdx={1, 3},
                                                                   GenOpaqueIdx={1, 2}, GenOBodyIdx={3, 5}))))
